@@ -65,6 +65,12 @@ func runC12(c *Ctx, idx int) {
 			c.Count("nets.outputs_feeding_outputs", 1)
 		}
 		s := genNet(r, o)
+		if i%50 == 27 {
+			// a wide network: a hundred to a few hundred neurons in two or three layers, many inputs and outputs
+			s = wideNet(r, []neatmath.NodeActivationType{neatmath.SigmoidSteepenedActivation, neatmath.TanhActivation, neatmath.LinearActivation,
+				neatmath.SigmoidPlainActivation, neatmath.GaussianActivation, neatmath.LinearClippedActivation})
+			c.Count("nets.wide_of_hundreds_of_neurons", 1)
+		}
 		in := randInputs(r, s.NIn, 2)
 		viaGenesis := r.Intn(2) == 0
 		if !viaGenesis && r.Intn(3) == 0 {
